@@ -222,3 +222,94 @@ Example ex_rejects_unconfined_caller :
 Proof. reflexivity. Qed.
 Example ex_parent_of_root_is_outside : den [] (PDir PRoot) VOut.
 Proof. apply d_dir_root. apply d_root. Qed.
+
+(* ================================================================= the application side
+   [Routed]: the string is built ONLY from results of sanitize_path ("/"-aligned suffixes, parents), the constant "/",
+   or the principal path of a login name that passed is_safe_path_component -- never from raw request text.
+   [Named]: the last component of such a path, a name checked by name_from_path, or a name the storage returned. *)
+Inductive Routed (calls : acalltab) : aprov -> Prop :=
+| r_san : Routed calls ASan
+| r_root : Routed calls (ALit "/")
+| r_suffix a : Routed calls a -> Routed calls (ASuffix a)
+| r_either a b : Routed calls a -> Routed calls b -> Routed calls (AEither a b)
+| r_user : Routed calls (AUserPath ASafeComp)
+| r_predefined : Routed calls (ACat (AUserPath ASafeComp) AConfig)
+| r_parent a : Routed calls a -> Routed calls (AUnstrip (ADirname (AStrip a)))
+| r_param f x : (forall q, In (f, x, q) calls -> Routed calls q) -> Routed calls (AParam f x).
+
+Inductive Named (calls : acalltab) : aprov -> Prop :=
+| n_base a : Routed calls a -> Named calls (ABasename (AStrip a))
+| n_checked : Named calls ANameFromPath
+| n_storage : Named calls AFromStorage
+| n_none : Named calls ANone
+| n_either a b : Named calls a -> Named calls b -> Named calls (AEither a b)
+| n_param f x : (forall q, In (f, x, q) calls -> Named calls q) -> Named calls (AParam f x).
+
+Lemma acallers_in : forall calls f x q, In (f, x, q) calls -> In q (acallers calls f x).
+Proof.
+  intros calls f x q H. unfold acallers. apply in_map_iff. exists (f, x, q). split; [reflexivity|].
+  apply filter_In. split; [exact H|]. cbn [fst snd]. rewrite !String.eqb_refl. reflexivity.
+Qed.
+
+Lemma san_like_sound : forall calls k a, san_like calls k a = true -> Routed calls a.
+Proof.
+  intros calls k. induction k as [|k IH]; intros a H; [cbn in H; discriminate H|].
+  destruct a; cbn [san_like] in H; try discriminate H.
+  - constructor.
+  - apply String.eqb_eq in H. subst. constructor.
+  - constructor. apply IH. exact H.
+  - destruct a; try discriminate H. destruct a; try discriminate H.
+    constructor. apply IH. exact H.
+  - destruct a1; try discriminate H. destruct a1; try discriminate H. destruct a2; try discriminate H. constructor.
+  - destruct a; try discriminate H. constructor.
+  - constructor. intros q Hq. apply IH. rewrite forallb_forall in H. apply H. apply acallers_in. exact Hq.
+  - apply andb_true_iff in H as [Ha Hb]. constructor; apply IH; assumption.
+Qed.
+
+Lemma name_like_sound : forall calls k a, name_like calls k a = true -> Named calls a.
+Proof.
+  intros calls k. induction k as [|k IH]; intros a H; [cbn in H; discriminate H|].
+  destruct a; cbn [name_like] in H; try discriminate H.
+  - destruct a; try discriminate H. constructor. eapply san_like_sound. exact H.
+  - constructor.
+  - constructor.
+  - constructor.
+  - constructor. intros q Hq. apply IH. rewrite forallb_forall in H. apply H. apply acallers_in. exact Hq.
+  - apply andb_true_iff in H as [Ha Hb]. constructor; apply IH; assumption.
+Qed.
+
+Theorem app_sites_ok_sound : forall calls sites, app_sites_ok calls sites = true ->
+  forall s, In s sites ->
+  match a_role s with
+  | RPath => Routed calls (a_prov s)
+  | RName => Named calls (a_prov s)
+  | RToken => True
+  end.
+Proof.
+  intros calls sites H s Hs. unfold app_sites_ok in H. rewrite forallb_forall in H. specialize (H s Hs).
+  unfold asite_ok in H. destruct (a_role s); [eapply san_like_sound | eapply name_like_sound | exact I]; exact H.
+Qed.
+
+Lemma Gen_c06_app_sites_ok : app_sites_ok C06Sites.app_calls C06Sites.app_sites = true.
+Proof. vm_compute. reflexivity. Qed.
+
+Theorem c06_app_sites_routed : forall s, In s C06Sites.app_sites ->
+  match a_role s with
+  | RPath => Routed C06Sites.app_calls (a_prov s)
+  | RName => Named C06Sites.app_calls (a_prov s)
+  | RToken => True
+  end.
+Proof. exact (app_sites_ok_sound _ _ Gen_c06_app_sites_ok). Qed.
+
+Example ex_app_rejects_raw_path :
+  app_sites_ok [] [mkASite "get.py" "do_GET" "discover" RPath 1 (AUnknown "environ PATH_INFO")] = false.
+Proof. reflexivity. Qed.
+Example ex_app_rejects_unsanitised_gate :
+  app_sites_ok [("do_*", "path", AUnknown "unsafe_path")] [mkASite "get.py" "do_GET" "discover" RPath 1 (AParam "do_*" "path")] = false.
+Proof. reflexivity. Qed.
+Example ex_app_rejects_raw_name :
+  app_sites_ok [] [mkASite "put.py" "do_PUT" "upload" RName 1 (ABasename (AUnknown "raw"))] = false.
+Proof. reflexivity. Qed.
+Example ex_app_accepts_gate :
+  app_sites_ok [("do_*", "path", AEither ASan (ASuffix ASan))] [mkASite "get.py" "do_GET" "discover" RPath 1 (AParam "do_*" "path")] = true.
+Proof. reflexivity. Qed.
